@@ -36,6 +36,11 @@ type SimDisk struct {
 	// WipeoutLostAck makes the next Wipeout remove everything and then report an error (the
 	// acknowledgement is lost, or the bucket itself cannot be removed after its objects were).
 	WipeoutLostAck bool
+	// WipeoutRefused makes the next Wipeout fail without removing anything.
+	WipeoutRefused bool
+	// FailObject makes EVERY Close of the named object fail (a persistent failure: retrying the
+	// write does not help), nothing is committed.
+	FailObject string
 }
 
 // NewSimDisk returns an empty store.
@@ -177,6 +182,10 @@ func (w *simWriter) Close() error {
 		w.d.Plan.Next(site+"[poisoned]", false)
 		return Err(site + " after failed write")
 	}
+	if w.d.FailObject != "" && w.object == w.d.FailObject {
+		w.d.R.Fault("persistent-write-failure", "%s", site)
+		return Err(site)
+	}
 	n := w.d.closes
 	w.d.closes++
 	if n == w.d.FailCloseN {
@@ -211,6 +220,11 @@ func (d *SimDisk) EnsureBucketExists(_ context.Context, bucket string) error {
 // Wipeout implements storagei.Client.
 func (d *SimDisk) Wipeout(_ context.Context, bucket string) error {
 	return d.Plan.Guard("disk.Wipeout", true, func() error {
+		if d.WipeoutRefused {
+			d.WipeoutRefused = false
+			d.R.Fault("wipeout-refused", "%s", bucket)
+			return Err("disk.Wipeout (refused, nothing removed)")
+		}
 		rec := WriteRec{Op: "wipe", Bucket: bucket}
 		d.Apply(rec)
 		d.Log = append(d.Log, rec)
